@@ -4,6 +4,7 @@ No line of /repo is changed: every seam is taken by rebinding a module attribute
 install() is called once per OS process (before emd is imported); begin_run()/end_run()
 bracket every simulated run and put the process back into a pristine state.
 """
+import copy as _copy
 import errno
 import functools
 import inspect
@@ -289,7 +290,16 @@ def _bind(name, args, kwargs):
     except TypeError:
         return None
     ba.apply_defaults()
-    return dict(ba.arguments)
+    out = {}
+    for k, v in ba.arguments.items():
+        # option containers are snapshotted: the caller may edit the very same dictionary after the call
+        if isinstance(v, (dict, list, tuple)) or hasattr(v, 'keys'):
+            try:
+                v = _copy.deepcopy(dict(v) if hasattr(v, 'keys') and not isinstance(v, dict) else v)
+            except Exception:
+                pass
+        out[k] = v
+    return out
 
 
 def _wrap_stage(name, orig):
